@@ -10,6 +10,8 @@ use tick::*;
 use warp_core::SchedulerKind;
 
 fn main() {
+    // expected panics (footprint violations, scripted executor panics) are caught; keep stderr quiet
+    std::panic::set_hook(Box::new(|_| {}));
     for line in read_cases() {
         let m = kv(&line);
         let g = build_graph(m.get("g").map(String::as_str).unwrap_or("-"));
